@@ -3795,6 +3795,22 @@ def _descended_paths(ck, cls):
     return out
 
 
+def _without_bool(e):
+    """`bool(E)` as an answer / a test is `E` (a copy is made when something is taken out)"""
+    if e is None or not any(isinstance(x, ast.Call) and isinstance(x.func, ast.Name) and x.func.id == "bool" for x in ast.walk(e)):
+        return e
+    import copy
+
+    class T(ast.NodeTransformer):
+        def visit_Call(self, n):
+            self.generic_visit(n)
+            if isinstance(n.func, ast.Name) and n.func.id == "bool" and len(n.args) == 1 and not n.keywords and not isinstance(n.args[0], ast.Starred) \
+                    and isinstance(n.args[0], (ast.Compare, ast.BoolOp, ast.UnaryOp, ast.IfExp)):
+                return n.args[0]
+            return n
+    return ast.fix_missing_locations(T().visit(copy.deepcopy(e)))
+
+
 def _prune_constant_literals(ways):
     """A constant among the literals of a way (`False if same else True`): the way is impossible when the constant would have to
     come out the other way, and says nothing more when it comes out as it must."""
@@ -3902,6 +3918,16 @@ def check_did_change(ck, R):
                     if any(r_ in ("cap:symbol", "cap:attr_name") for (r_, _p, _f) in lp_) and any(r_ in ("fresh", "cap:ref") for (r_, _p, _f) in rp_):
                         res = {"kind": "presence"}
                     del sides
+                if res["kind"] is None and presence and isinstance(op, (ast.Is, ast.IsNot)):
+                    # getattr(<object>, <name>, SENTINEL) is SENTINEL: the attribute is absent
+                    for (g_, s_) in ((e.left, e.comparators[0]), (e.comparators[0], e.left)):
+                        if isinstance(g_, ast.Call) and isinstance(g_.func, ast.Name) and g_.func.id == "getattr" and len(g_.args) == 3 and not g_.keywords \
+                                and isinstance(s_, (ast.Name, ast.Attribute)) and A.norm(g_.args[2]) == A.norm(s_) \
+                                and any(r_ in ("fresh", "cap:ref") for (r_, _p, _f) in _access_paths(fa, g_.args[0], at)) \
+                                and any(r_ in ("cap:symbol", "cap:attr_name") for (r_, _p, _f) in _access_paths(fa, g_.args[1], at)):
+                            canon = _parse_lit(text)    # the polarity of a literal refers to its canonical text
+                            c_op = canon.ops[0] if isinstance(canon, ast.Compare) and len(canon.ops) == 1 else op
+                            res = {"kind": "absence" if isinstance(c_op, ast.Is) else "presence"}
             elif isinstance(e, ast.Call) and A.call_attr(e) == "hasattr" and isinstance(e.func, ast.Name) and len(e.args) == 2 and presence:
                 if any(r_ in ("fresh", "cap:ref") for (r_, _p, _f) in _access_paths(fa, e.args[0], at)) \
                         and any(r_ in ("cap:symbol", "cap:attr_name") for (r_, _p, _f) in _access_paths(fa, e.args[1], at)):
@@ -3944,6 +3970,7 @@ def check_did_change(ck, R):
         bad = {}                # id(return stmt) -> (return stmt, [reasons], constant?)
         for (pth, lits) in paths:
             (ret, val, vnode) = returned(pth)
+            val = _without_bool(val)
             if isinstance(val, ast.Constant) and val.value is not None:
                 ways = None if bool(val.value) else [[]]
             elif val is None or A.is_none(val):
@@ -3953,7 +3980,7 @@ def check_did_change(ck, R):
                     ways = _prune_constant_literals(fa._alts(val, vnode, False))
                 except AnalysisError:
                     ways = [[(A.norm(val), False)]]
-            base_cmp = [t for t in lits if info(t)["kind"] in ("cmp", "presence")]
+            base_cmp = [t for t in lits if info(t)["kind"] in ("cmp", "presence", "absence")]
             if ways is None:
                 n_compared += bool(base_cmp)
                 continue  # "changed" without looking costs a recomputation, never a stale version
@@ -3966,7 +3993,7 @@ def check_did_change(ck, R):
                 ok_way = any((t, p_) in allowed_false_guard for t, p_ in conj.items())
                 ok_way = ok_way or any(conj[t] is True and kinds[t]["covering"] for t in cmps)
                 if presence:
-                    ok_way = ok_way or any(kinds[t]["kind"] == "presence" and conj[t] is False for t in conj)
+                    ok_way = ok_way or any((kinds[t]["kind"] == "presence" and conj[t] is False) or (kinds[t]["kind"] == "absence" and conj[t] is True) for t in conj)
                 if watch_only and not ok_way:
                     # nothing is hashed for the symbol itself: once the comparison has said "bound to another object", the answer
                     # may be narrowed to "and some strategy can hash it now" - asked of the fresh object, of every strategy
@@ -4013,7 +4040,7 @@ def check_did_change(ck, R):
         # the overall verdict, with the most specific reason
         any_fresh = any(r_ == "fresh" for st in fa.stmts() if fa.nodes(st) for x in A.walk_local(st) if isinstance(x, ast.Call)
                         for (r_, _p, _f) in _access_paths(fa, x, None))
-        any_real = any(i_["kind"] in ("cmp", "presence") for i_ in lit_info.values())
+        any_real = any(i_["kind"] in ("cmp", "presence", "absence") for i_ in lit_info.values())
         ok = not bad and n_compared > 0
         if not ok and not why:
             why = ("does not re-resolve the symbol" if not (any_fresh or (presence and any_real)) else
